@@ -198,7 +198,8 @@ def run(tier="quick", root="/repo", evidence_dir=None, quiet=False):
         built = a if a != dom else b
         other = b if built is a else a
         tdom = ("call", ("attr", ("sym", "self"), "transform"), (("call", ("attr", ("glob", "np"), "array"), (dom,), ()),), ())
-        ordered = contains(built, tdom) and any(fn in e5.show(built, 300) for fn in ("np.sort(", "sorted(", "min(", "np.min("))
+        tdom2 = ("call", ("attr", ("sym", "self"), "transform"), (dom,), ())  # e5 folds np.array(x) to x
+        ordered = (contains(built, tdom) or contains(built, tdom2)) and any(fn in e5.show(built, 300) for fn in ("np.sort(", "sorted(", "min(", "np.min("))
         none_test = cond[0] == "cmp" and cond[1] in (("IsNot",), ("Is",)) and cond[2] == dom
         d_ok = ordered and none_test and other == dom
     if d_ok:
